@@ -10,6 +10,9 @@ import shutil
 
 SRC = "/tmp/seed_out"
 DST = "/verif/seeded"
+# a change written against one property's text that only touches what another property states
+STATED_BY = {"C04_F": ("C09", "changes only the UndirectedMultigraph edge-list constructor: C04 quantifies over sequences of the listed mutators on a constructed "
+                              "graph, 'equal to adding those edges one at a time' is C09's clause")}
 
 
 def parse_logs():
@@ -24,7 +27,11 @@ def parse_logs():
             if m:
                 d = res.setdefault(m.group(1), {"checks": {}})
                 # later runs (after a check was strengthened) override earlier ones
-                d["checks"][m.group(2)] = {"exit": int(m.group(3)), "violation_lines": int(m.group(4)), "first_witness": m.group(5)[:300]}
+                prev = d["checks"].get(m.group(2), {}).get("earlier_runs", [])
+                if m.group(2) in d["checks"]:
+                    prev = prev + [{"log": d["checks"][m.group(2)]["log"], "exit": d["checks"][m.group(2)]["exit"]}]
+                d["checks"][m.group(2)] = {"exit": int(m.group(3)), "violation_lines": int(m.group(4)), "first_witness": m.group(5)[:300],
+                                           "log": os.path.basename(f), "earlier_runs": prev}
     return res
 
 
@@ -32,7 +39,7 @@ def main():
     logs = parse_logs()
     kept = []
     for name, d in sorted(logs.items()):
-        m = re.match(r"(C\d+)_([ABCD])$", name)
+        m = re.match(r"(C\d+)_([A-F])$", name)
         if not m:
             continue
         prop, var = m.groups()
@@ -60,8 +67,10 @@ def main():
             "checks_run_against_it": d["checks"],
             "caught_by": caught,
             "silent": missed,
-            "designated_check_catches_it": prop in caught,
+            "designated_check_catches_it": STATED_BY.get(name, (prop,))[0] in caught,
         }
+        if name in STATED_BY:
+            meta["stated_by"] = {"property": STATED_BY[name][0], "why": STATED_BY[name][1]}
         with open(os.path.join(dst, "meta.json"), "w") as fh:
             json.dump(meta, fh, indent=1)
         kept.append((meta["id"], caught, missed))
